@@ -38,6 +38,7 @@
 
 /* ------------------------------------------------------------------ generator stub */
 unsigned cmv_raw_calls;
+uint64_t cmv_last_raw;
 uint64_t cmv_raw(void)
 {
     uint64_t raw = nondet_u64();
@@ -48,6 +49,7 @@ uint64_t cmv_raw(void)
     ASSUME((raw & 0xffu) <= cmi_random_nor_zig_max);
 #endif
     cmv_raw_calls++;
+    cmv_last_raw = raw;
     return raw;
 }
 
@@ -242,6 +244,17 @@ void h_dice(void)
     const long r = cmb_random_dice(a, b);
     OBT(T1, r >= a, "dice(a,b) >= a");
     OBT(T1, r <= b, "dice(a,b) <= b");
+    /* inverse-CDF cell: outcome a + k is returned exactly for u in [k/n, (k+1)/n), n = b - a + 1, i.e.
+     * k = floor(n * u) (clamped to n - 1 where the product rounds up to n); equal cells = uniform choice */
+#ifdef C16_DICE_A   /* constant a, b only: with symbolic bounds the two products are not proved equal in 200 s */
+    {
+        const double u = ldexp((double)(cmv_last_raw >> 11), -53);
+        const double nu = (double)(b - a + 1) * u;
+        long k = (long)floor(nu);
+        if (k > b - a) k = b - a;
+        OBT(T1, r - a == k, "dice(a,b) - a is the index floor((b-a+1)*u) of the cell of width 1/(b-a+1) that holds u");
+    }
+#endif
     CANARY("h_dice end");
 }
 #endif
